@@ -36,6 +36,7 @@ def carrier_yaml(address_size=16, endian='little', origin=None, zones=None, data
                                                'offset': {'size': 8, 'byte_align': True}}}},
             # a branch whose operand is an address written as an expression; the field carries target - own address
             # a branch relative to the instruction's LAST byte, limited to -128 .. 127
+            'indn8': {'operand_values': {'in8': {'type': 'indirect_numeric', 'argument': {'size': 8, 'byte_align': True}}}},
             'rel8e': {'operand_values': {'rle': {'type': 'relative_address', 'offset_from_instruction_end': True,
                                                  'argument': {'size': 8, 'byte_align': True, 'min': -128, 'max': 127}}}},
             'rel8': {'operand_values': {'rl': {'type': 'relative_address', 'argument': {'size': 8, 'byte_align': True}}}},
@@ -60,6 +61,8 @@ def carrier_yaml(address_size=16, endian='little', origin=None, zones=None, data
             'n1': {'bytecode': {'value': 1, 'size': 4}},
             'n2': {'bytecode': {'value': 2, 'size': 4}},
             'jp4': {'bytecode': {'value': 7, 'size': 4}, 'operands': {'count': 1, 'operand_sets': {'list': ['pg4']}}},
+            # [expr]: an indirect numeric operand with an 8-bit argument
+            'ldn': {'bytecode': {'value': 0xD1, 'size': 8}, 'operands': {'count': 1, 'operand_sets': {'list': ['indn8']}}},
             'ldo': {'bytecode': {'value': 0xD0, 'size': 8}, 'operands': {'count': 1, 'operand_sets': {'list': ['inda']}}},
             'bre': {'bytecode': {'value': 0xD9, 'size': 8}, 'operands': {'count': 1, 'operand_sets': {'list': ['rel8e']}}},
             'bra': {'bytecode': {'value': 0xD8, 'size': 8}, 'operands': {'count': 1, 'operand_sets': {'list': ['rel8']}}},
